@@ -208,8 +208,8 @@ def run_cmd(cmd, cwd=None, timeout=3600, input=None, env=None):
 
 def lean_driver(model, lines, timeout=1800):
     """Feed op lines to the Lean model driver, return its output lines."""
-    inp = 'model %s\n' % model + '\n'.join(lines) + '\n'
-    rc, out, err = run_cmd(['lake', 'env', 'lean', '--run', 'Driver.lean'], cwd=LEAN_DIR, input=inp, timeout=timeout)
+    inp = '\n'.join(lines) + '\n'
+    rc, out, err = run_cmd(['lake', 'env', 'lean', '--run', 'drivers/%s.lean' % model], cwd=LEAN_DIR, input=inp, timeout=timeout)
     if rc != 0:
         raise RuntimeError('lean driver failed (%d): %s %s' % (rc, out[-2000:], err[-2000:]))
     return out.splitlines()
